@@ -591,7 +591,7 @@ def rulePODDate(ts: datetime, pod: Time, d: Time) -> Time:
 
 
 @rule(
-    r"((?P<not>not |nicht )?(vor|before))|(bis )?spätestens( bis)?|bis|latest",
+    r"((?P<not>not |nicht )?(vor|before))|(bis )?spätestens( bis)?|bis|latest|(un)?till?",
     dimension(Time),
 )
 def ruleBeforeTime(ts: datetime, r: RegexMatch, t: Time) -> Interval:
